@@ -1176,8 +1176,11 @@ class Interp:
             except StopIteration:
                 it.done = True
                 return False, None
-            except PyRaise:
+            except PyRaise as pr:
                 it.done = True
+                if self.exc_class_name(pr.exc) == "StopIteration":
+                    # PEP 479: a StopIteration escaping a generator body is turned into RuntimeError
+                    raise self.exc("RuntimeError", "generator raised StopIteration") from None
                 raise
         if isinstance(it, AIter):
             try:
